@@ -3,6 +3,8 @@ import GB.C08.MimeProofs
 import GB.C08.HandoffProofs
 import GB.C08.ConnProofs
 import GB.C08.StallProofs
+import GB.C08.FenceProofs
+import GB.C08.TrailerProofs
 import GB.Generated.Facts
 /-
   C08 — gRPC-Web framing is lossless and always ends with exactly one status trailer.
@@ -473,3 +475,222 @@ example : (GB.LTS.run (Handoff.step true) Handoff.init
 example : (GB.LTS.run (Handoff.step false) Handoff.init
     [.clientSend (wsFrame [7]), .clientSend (wsFrame [8]), .recvCall, .read, .handoff, .read, .closeDone, .onDone, .readerExit]).map
       (fun s => (s.results, s.reader)) = some ([.msg [7]], .exited) := by decide
+
+
+/-! ### the Send / trailer fence over ALL interleavings (Fence.lean: forwarder, abandoned `withCtx` helpers, handler epilogue)
+
+  `Fence.step` is the LTS of gRPCWebStream (kind `http`) and gRPCWebSocketStream (kind `ws`) with the order of the
+  code after fix e34ade0 (D30): the `finished` flag is read and written under the stream mutex. Every theorem below is
+  about every label sequence executable from the initial state, i.e. every schedule of: any number of Send calls, each
+  run by its own helper goroutine at its own pace (abandoned or not), SetHeader / SetTrailer, Forward returning with
+  any status, the handler's Lock ; finished = true ; Unlock ; trailer write, and failing writes. -/
+
+/-- The output is always `header-part ++ frames(messages written so far) ++ (trailer)?`: the data frames are whole
+    `lpmMessage` frames, in the order the writes happened; a trailer frame is there only once the handler is done, it is
+    the frame `lpmTrailer (encodeMD (trailerWithStatus s.trailer code msg))` (= the code's lpmTrailer, Trailer.lean) of the status Forward returned and of the trailer
+    metadata the forwarder set, it is last, and there is at most one; over HTTP there is no header part. -/
+theorem C08_fence_output_shape (k : Fence.Kind) (ls : List Fence.Lbl) (s : Fence.St)
+    (hr : GB.LTS.run Fence.step (Fence.init .fixed k) ls = some s) :
+    s.out = (match s.hdrW with | some h => [lpmTrailer h] | none => []) ++
+            s.written.map (fun p => lpmMessage p.2) ++
+            (match s.trW with | some t => [lpmTrailer t] | none => []) ∧
+    (∀ t, s.trW = some t → t = encodeMD (trailerWithStatus s.trailer s.code s.smsg) ∧ s.phase = .done) ∧
+    (k = .http → s.hdrW = none) := by
+  have hR := GB.LTS.run_reachable Fence.step _ _ ls GB.LTS.Reachable.init hr
+  have hI := Fence.inv_reachable k s hR
+  refine ⟨hI.shape, fun t ht => ⟨(hI.trIs t ht).1, hI.trDone (by simp [ht])⟩, ?_⟩
+  intro hk; subst hk
+  exact (Fence.invHttp_reachable _ s hR).2
+
+/-- gRPC-Web over HTTP: once the trailer write has happened the response body is, byte for byte, `respondHTTP` of the
+    messages whose frames were written — the sequential model all the response theorems (`C08_resp_shape_any_values`: strict
+    decoder, exactly one trailer frame, last, stating the outcome) are about. -/
+theorem C08_fence_http_body (ls : List Fence.Lbl) (s : Fence.St)
+    (hr : GB.LTS.run Fence.step (Fence.init .fixed .http) ls = some s) (ht : s.trW.isSome) :
+    s.out.flatten = respondHTTPWith (s.written.map (·.2)) (encodeMD (trailerWithStatus s.trailer s.code s.smsg)) := by
+  obtain ⟨h1, h2, h3⟩ := C08_fence_output_shape .http ls s hr
+  cases htr : s.trW with
+  | none => simp [htr] at ht
+  | some t =>
+    rw [h1, h3 rfl, htr, (h2 t htr).1]
+    simp [respondHTTPWith, List.flatMap, List.map_map, Function.comp_def]
+
+/-- Nothing after the trailer: from a state in which the handler has written (or tried to write) the trailer frame, no
+    continuation whatsoever — helpers that were abandoned and complete late included — changes the output. -/
+theorem C08_fence_nothing_after_trailer (k : Fence.Kind) (ls ls' : List Fence.Lbl) (s s' : Fence.St)
+    (hr : GB.LTS.run Fence.step (Fence.init .fixed k) ls = some s) (hd : s.phase = .done)
+    (hr' : GB.LTS.run Fence.step s ls' = some s') : s'.out = s.out :=
+  (Fence.out_frozen_run s (Fence.inv_reachable k s (GB.LTS.run_reachable Fence.step _ _ ls GB.LTS.Reachable.init hr)) hd ls' s' hr').1
+
+/-- An (abandoned) Send writes its whole frame before the trailer or nothing at all: a helper that returned nil has
+    exactly its message among the written data frames (which all precede the trailer, `C08_fence_output_shape`), a helper
+    that returned Canceled / Unavailable, or has not got to its write yet, has no frame in the output; no helper has two;
+    and every data frame is the message of one Send call. -/
+theorem C08_fence_send_all_or_nothing (k : Fence.Kind) (ls : List Fence.Lbl) (s : Fence.St)
+    (hr : GB.LTS.run Fence.step (Fence.init .fixed k) ls = some s) :
+    (∀ i h, s.helpers i = some h → h.pc = .doneOk → (i, h.msg) ∈ s.written) ∧
+    (∀ i h, s.helpers i = some h → h.pc ≠ .doneOk → h.pc ≠ .wrote → ∀ m, (i, m) ∉ s.written) ∧
+    (s.written.map Prod.fst).Nodup ∧
+    (∀ i m, (i, m) ∈ s.written → ∃ h, s.helpers i = some h ∧ h.msg = m) := by
+  have hI := Fence.inv_reachable k s (GB.LTS.run_reachable Fence.step _ _ ls GB.LTS.Reachable.init hr)
+  refine ⟨fun i h hh hp => hI.wr2 i h hh (by simp [hp, Fence.PC.hasWritten]), ?_, hI.nodup, ?_⟩
+  · intro i h hh h1 h2 m hm
+    obtain ⟨h', hh', _, hw⟩ := hI.wr i m hm
+    rw [hh] at hh'; cases hh'
+    cases hq : h.pc <;> simp_all [Fence.PC.hasWritten]
+  · intro i m hm
+    obtain ⟨h', hh', hm', _⟩ := hI.wr i m hm
+    exact ⟨h', hh', hm'⟩
+
+/-- Mutual exclusion and the flag discipline the proof rests on: at most one party is between Lock and Unlock, a helper
+    that has passed the `finished` test holds the mutex and `finished` is still false; the handler sets the flag only
+    while it holds the mutex. -/
+theorem C08_fence_mutex (k : Fence.Kind) (ls : List Fence.Lbl) (s : Fence.St)
+    (hr : GB.LTS.run Fence.step (Fence.init .fixed k) ls = some s) :
+    (∀ i j hi hj, s.helpers i = some hi → s.helpers j = some hj → hi.pc.holds = true → hj.pc.holds = true → i = j) ∧
+    (∀ i h, s.helpers i = some h → h.pc.holds = true → s.phase ≠ .inLock ∧ s.phase ≠ .flagged) ∧
+    (∀ i h, s.helpers i = some h → h.pc = .passed → s.finished = false) := by
+  have hI := Fence.inv_reachable k s (GB.LTS.run_reachable Fence.step _ _ ls GB.LTS.Reachable.init hr)
+  refine ⟨?_, ?_, hI.pass⟩
+  · intro i j hi hj h1 h2 h3 h4
+    have a := hI.hold i hi h1 h3
+    have b := hI.hold j hj h2 h4
+    rw [a] at b; cases b; rfl
+  · intro i h h1 h2
+    have a := hI.hold i h h1 h2
+    have b := hI.hmu
+    constructor <;> intro hp <;> simp [hp, a] at b
+
+/-- No deadlock on the way to the trailer (writes that return): after Forward returned and until the trailer is written,
+    the handler or the helper holding the mutex always has an enabled step. (A write that never returns: `Stall.lean`.) -/
+theorem C08_fence_progress (k : Fence.Kind) (ls : List Fence.Lbl) (s : Fence.St)
+    (hr : GB.LTS.run Fence.step (Fence.init .fixed k) ls = some s) (h1 : s.phase ≠ .forwarding) (h2 : s.phase ≠ .done) :
+    (∃ l ∈ [Fence.Lbl.finLock, .finSet, .finUnlock, .writeTrailer], (Fence.step s l).isSome) ∨
+    (∃ i, s.mu = .helper i ∧ ∃ l ∈ [Fence.Lbl.hCheck i, .hWriteHdr i, .hWrite i, .hUnlock i], (Fence.step s l).isSome) :=
+  Fence.handler_or_holder_enabled s
+    (Fence.inv_reachable k s (GB.LTS.run_reachable Fence.step _ _ ls GB.LTS.Reachable.init hr)) h1 h2
+
+/-- The order before the fix (flag read OUTSIDE the mutex; the code before e34ade0 had no fence at all, which this order
+    over-approximates from the safe side): the helper reads `finished = false`, the handler fences and writes the trailer,
+    the helper then locks and writes — a data frame AFTER the trailer frame. Same schedule under the fixed order: the
+    helper is refused, the trailer stays last. Kernel-evaluated. -/
+theorem C08_fence_original_order_writes_after_trailer :
+    (GB.LTS.run Fence.step (Fence.init .original .http)
+      [.send [7], .hCheck 0, .fwdReturn 4 [], .finLock, .finSet, .finUnlock, .writeTrailer, .hLock 0, .hWrite 0, .hUnlock 0]).map (·.out)
+      = some [lpmTrailer (encodeMD (trailerWithStatus [] 4 [])), lpmMessage [7]] ∧
+    (GB.LTS.run Fence.step (Fence.init .fixed .http)
+      [.send [7], .fwdReturn 4 [], .finLock, .finSet, .finUnlock, .writeTrailer, .hLock 0, .hCheck 0, .hUnlock 0]).map
+        (fun s => (s.out, (s.helpers 0).map (·.pc)))
+      = some ([lpmTrailer (encodeMD (trailerWithStatus [] 4 []))], some .doneCanceled) := by
+  decide
+
+/-- The lock scope and flag order the fixed-order LTS has are the ones in the source now (regenerated go/ast facts):
+    `send` takes the mutex first, releases it by a deferred Unlock (so it covers the writes), tests `finished` under it and
+    returns without writing when it is set, writes after the test (WebSocket: `if !sentMD { sentMD = true; header frame }`
+    then the data frame); `finish` / `sendTrailer` set the flag between Lock and Unlock and write the trailer after the
+    Unlock; GRPCWebBridge.ServeHTTP calls Forward, then finish(), then writeTrailerWithStatus (the first
+    writeTrailerWithStatus is the routing-failure return, before any stream exists). -/
+theorem C08_facts_fence :
+    GB.Generated.grpcwebFenceHTTPSend = ["Lock", "defer Unlock", "if finished return", "Write"] ∧
+    GB.Generated.grpcwebFenceHTTPFinish = ["Lock", "finished=true", "Unlock"] ∧
+    GB.Generated.grpcwebFenceHTTPServe = ["writeTrailerWithStatus", "Forward", "finish", "writeTrailerWithStatus"] ∧
+    GB.Generated.grpcwebFenceWSSend =
+      ["Lock", "defer Unlock", "if finished return", "if !sentMD", "sentMD=true", "WriteMessage", "WriteMessage"] ∧
+    GB.Generated.grpcwebFenceWSTrailer =
+      ["SetDeadline", "Lock", "finished=true", "Unlock", "SetDeadline", "WriteMessage", "closeGracefully"] := by
+  decide
+
+-- a schedule with two Sends, the second abandoned and late but before the fence: both frames, then the trailer
+example : (GB.LTS.run Fence.step (Fence.init .fixed .ws)
+    [.setHeader [], .send [1], .send [2], .hLock 0, .hCheck 0, .hWriteHdr 0, .hWrite 0, .fwdReturn 0 [], .hUnlock 0,
+     .hLock 1, .hCheck 1, .hWrite 1, .hUnlock 1, .finLock, .finSet, .finUnlock, .writeTrailer]).map (·.out) =
+    some [lpmTrailer [], lpmMessage [1], lpmMessage [2], lpmTrailer (encodeMD (trailerWithStatus [] 0 []))] := by decide
+
+
+/-! ### trailer content: no value can add a line to the block (fix D36) -/
+
+/-- lpmTrailerValue never lets CR or LF through, for EVERY key and EVERY value byte string: a binary (-bin) value becomes
+    base64 text (only `A-Za-z0-9+/`, so no NUL / control byte either), any other value has its CR and LF replaced by SP. -/
+theorem C08_trailer_value_line_clean (k v : Bytes) :
+    (13 : UInt8) ∉ trailerValue k v ∧ (10 : UInt8) ∉ trailerValue k v ∧
+    (isBinKey k = true → ∀ c ∈ trailerValue k v, 33 ≤ c ∧ c ≤ 126) := by
+  refine ⟨(trailerValue_clean k v).1, (trailerValue_clean k v).2, ?_⟩
+  intro hb c hc
+  simp only [trailerValue, hb, ↓reduceIte] at hc
+  exact encodeRaw_printable v c hc
+
+/-- Binary values are lossless: the client's `base64.RawStdEncoding` decoder gives back exactly the bytes the target sent. -/
+theorem C08_trailer_bin_roundtrip (k v : Bytes) (hb : isBinKey k = true) :
+    C07.b64dec false (trailerValue k v) [] = some v := by
+  simp only [trailerValue, hb, ↓reduceIte]
+  exact b64raw_roundtrip v
+
+/-- The response theorem with NO assumption on the metadata values any more: for every message list, every outcome,
+    every trailer metadata of the target — any value bytes, CR LF NUL and forged `grpc-status` lines included — whose KEYS
+    are line-clean (keys come from the operator's allow-list + prefix), and every map order: the strict decoder reads back
+    the messages and exactly one trailer frame, last, that states exactly the call's outcome. The trailer frame written is
+    the code's `lpmTrailer(trailerWithStatus(md, st))` = `lpmTrailer (encodeMD (trailerWithStatus md code msg))`. -/
+theorem C08_resp_shape_any_values (ms : List Bytes) (md tr : MD) (code : Nat) (msg : Bytes)
+    (hms : ∀ m ∈ ms, m.length < 4294967296) (hkeys : ∀ kv ∈ md, (13 : UInt8) ∉ kv.1 ∧ (58 : UInt8) ∉ kv.1)
+    (hperm : tr.Perm (encodeMD (trailerWithStatus md code msg))) (hsize : (trailerBlock tr).length < 4294967296) :
+    decodeBody (respondHTTPWith ms tr) = some (ms, trailerBlock tr) ∧ TrailerSays (trailerBlock tr) code msg := by
+  rw [encodeMD_trailerWithStatus] at hperm
+  have := C08_resp_shape ms (encodeMD md) tr code msg hms (clean_encodeMD md hkeys) hperm hsize
+  exact ⟨this.1, this.2.1⟩
+
+/-- Witness of the behaviour before the fix (kernel-evaluated; the same input replayed on the real code: corpus/C08/trailer.txt):
+    allow-listed binary trailer `x-bin` = "a\r\ngrpc-status: 0" on a call that FAILED with code 5 "no": the block had the
+    lines `x-bin: a`, `grpc-status: 0`, `grpc-status: 5`, `grpc-message: no` — the trailer no longer states the outcome
+    (a first-match client reads OK). After the fix the value travels as `YQ0KZ3JwYy1zdGF0dXM6IDA` and the outcome is (5, "no"). -/
+theorem C08_prefix_trailer_injection :
+    let md : MD := [([120, 45, 98, 105, 110], [97, 13, 10, 103, 114, 112, 99, 45, 115, 116, 97, 116, 117, 115, 58, 32, 48])]
+    trailerOutcome (trailerBlock (trailerWithStatus md 5 [110, 111])) = none ∧
+    (parseTrailer (trailerBlock (trailerWithStatus md 5 [110, 111]))).map (·.map (·.1)) =
+      some [[120, 45, 98, 105, 110], kStatus, kStatus, kMessage] ∧
+    trailerOutcome (trailerBlock (encodeMD (trailerWithStatus md 5 [110, 111]))) = some (5, [110, 111]) ∧
+    trailerValue [120, 45, 98, 105, 110] [97, 13, 10, 103, 114, 112, 99, 45, 115, 116, 97, 116, 117, 115, 58, 32, 48] =
+      [89, 81, 48, 75, 90, 51, 74, 119, 89, 121, 49, 122, 100, 71, 70, 48, 100, 88, 77, 54, 73, 68, 65] := by
+  decide
+
+/-! ### the request flag byte -/
+
+/-- recv never looks at the flag byte: whatever the first byte of a frame is (0x01 "compressed", 0x80 "trailer", anything),
+    the result and the rest of the stream are the same. -/
+theorem C08_req_flag_ignored (L : Nat) (f g : UInt8) (s : Bytes) : recvL L (f :: s) = recvL L (g :: s) := by
+  rcases s with _ | ⟨a, _ | ⟨b, _ | ⟨c, _ | ⟨d, rest⟩⟩⟩⟩ <;> simp [recvL]
+
+/-- What IS guaranteed for a frame with a non-zero flag: its payload bytes are delivered unaltered, complete and in place —
+    the bridge neither decompresses nor drops nor re-labels anything. -/
+theorem C08_req_payload_intact_whatever_flag (fl : UInt8) (m rest : Bytes) (h : m.length ≤ maxMsg) :
+    recv (fl :: (putBe32 m.length ++ m) ++ rest) = (.msg m, rest) := by
+  have h32 : m.length < 4294967296 := by simp only [maxMsg] at h; omega
+  have := recvL_frame maxMsg m rest h32 h
+  simp only [frame, List.cons_append] at this
+  unfold recv
+  rw [List.cons_append, C08_req_flag_ignored maxMsg fl 0]
+  exact this
+
+/-! ### application/grpc-web-text (base64 body) is not supported: refused, never mis-framed -/
+
+/-- The root dispatcher sends every media type that begins with `application/grpc-web` to GRPCWebBridge (C19), which reads
+    the body as binary frames. A text-mode body consists of base64 characters (no NUL byte): then no Recv ever returns a
+    message — the body is refused with Unavailable (1..4 bytes) or ResourceExhausted (its first five characters declare
+    ≥ 2^24 > 4 MiB bytes), nothing reaches the target. (Before fix D7 the first 4 MiB of text were handed over as a message.) -/
+theorem C08_text_mode_refused (s : Bytes) (hne : s ≠ []) (h : ∀ c ∈ s, c ≠ 0) (n : Nat) :
+    recvTrace (n + 1) s = [.err .header] ∨ recvTrace (n + 1) s = [.err .oversize] := by
+  rcases s with _ | ⟨f, _ | ⟨a, _ | ⟨b, _ | ⟨c, _ | ⟨d, rest⟩⟩⟩⟩⟩
+  · exact absurd rfl hne
+  all_goals try (left; simp [recvTrace, recvTraceL, recvL]; done)
+  right
+  have ha : a ≠ 0 := h a (by simp)
+  have ha' : 1 ≤ a.toNat := by
+    rcases Nat.eq_zero_or_pos a.toNat with h0 | h0
+    · exact absurd (UInt8.toNat_inj.mp (by simpa using h0)) ha
+    · exact h0
+  have hlen : ¬ be32 a b c d < 1 ∧ be32 a b c d > maxMsg := by
+    simp only [be32, maxMsg]; constructor <;> omega
+  simp [recvTrace, recvTraceL, recvL, hlen.1, hlen.2]
+
+-- "AAAAAAVoZWxsbw==" (the text-mode encoding of the frame of "hello"): refused as oversize; pre-fix recv would have read on
+example : recvTrace 3 [65, 65, 65, 65, 65, 65, 86, 111, 90, 87, 120, 115, 98, 119, 61, 61] = [.err .oversize] := by decide
+example : isBinKey [120, 45, 98, 105, 110] = true ∧ isBinKey [120, 45, 66, 73, 78] = false ∧ isBinKey [98, 105, 110] = false ∧ isBinKey kStatus = false := by decide
